@@ -7,6 +7,8 @@
 (* harness releases a goroutine from one hook to the next):                *)
 (*                                                                         *)
 (* sender p  SendRequestWithTimeout                                        *)
+(*   c0 the call is issued (no hook: a call that finds the gate locked is   *)
+(*      blocked inside waitIfLock)                       -> "call"          *)
 (*   c1 reqLocker.waitIfLock()                          -> hook send.gate  *)
 (*   c2 getActiveChannelInstance(), nextRequestID()     -> hook send.enter *)
 (*   c4 pendingReq.Add(1)                               -> hook send.add   *)
@@ -62,16 +64,17 @@ VARIABLES gate,      \* reqLocker.bLock
           active,    \* instance used for new requests
           pc, myInst, left, cur,
           first,     \* [sender -> counter of its instance before its message was numbered]
+          late,      \* senders whose call was issued while a renewal held the gate
           wire,      \* chunks written by the client: [inst, seq, who, type, last]
           hist
-vars == <<gate, pending, instLock, seq, active, pc, myInst, left, cur, first, wire, hist>>
-view == <<gate, pending, instLock, seq, active, pc, myInst, left, cur, first, wire>>
+vars == <<gate, pending, instLock, seq, active, pc, myInst, left, cur, first, late, wire, hist>>
+view == <<gate, pending, instLock, seq, active, pc, myInst, left, cur, first, late, wire>>
 
 Init == /\ gate = FALSE /\ pending = 0
         /\ instLock = [i \in Insts |-> "none"]
         /\ seq = [i \in Insts |-> IF i = 1 THEN Seq0 ELSE 0]
         /\ active = 1
-        /\ pc = [p \in Procs |-> IF p = "renew" THEN "r1" ELSE "c1"]
+        /\ pc = [p \in Procs |-> IF p = "renew" THEN "r1" ELSE "c0"] /\ late = {}
         /\ myInst = [p \in Procs |-> 0]
         /\ left = [p \in Procs |-> 0]
         /\ cur = [p \in Procs |-> 0] /\ first = [p \in Procs |-> 0]
@@ -83,31 +86,44 @@ Rec(p, hook) == hist' = IF Gen THEN Append(hist, [p |-> p, to |-> hook]) ELSE hi
 R == "renew"
 
 \* ---- sender ----
-C1(p) == /\ pc[p] = "c1" /\ gate = FALSE
+\* SendRequestWithTimeout is called. A call issued while the renewal holds the gate waits there and
+\* reads the active instance only afterwards (c2): it is sent on the instance the renewal installed.
+C0(p) == /\ pc[p] = "c0"
+         /\ late' = IF gate THEN late \cup {p} ELSE late
+         /\ Goto(p, "c1") /\ Rec(p, "call")
+         /\ UNCHANGED <<first, gate, pending, instLock, seq, active, myInst, left, cur, wire>>
+
+C1(p) == /\ UNCHANGED late
+         /\ pc[p] = "c1" /\ gate = FALSE
          /\ IF Dev_GateGap THEN UNCHANGED pending ELSE pending' = pending + 1
          /\ Goto(p, "c2") /\ Rec(p, "send.gate")
          /\ UNCHANGED <<first, gate, instLock, seq, active, myInst, left, cur, wire>>
-C2(p) == /\ pc[p] = "c2"
+C2(p) == /\ UNCHANGED late
+         /\ pc[p] = "c2"
          /\ pc[R] # "r10"          \* instancesMu is held from the install to the return of the response handler
          /\ myInst' = [myInst EXCEPT ![p] = active]
          /\ Goto(p, "c4") /\ Rec(p, "send.enter")
          /\ UNCHANGED <<first, gate, pending, instLock, seq, active, left, cur, wire>>
-C4(p) == /\ pc[p] = "c4"
+C4(p) == /\ UNCHANGED late
+         /\ pc[p] = "c4"
          /\ IF Dev_GateGap THEN pending' = pending + 1 ELSE UNCHANGED pending
          /\ Goto(p, "c5") /\ Rec(p, "send.add")
          /\ UNCHANGED <<first, gate, instLock, seq, active, myInst, left, cur, wire>>
-C5(p) == /\ pc[p] = "c5" /\ instLock[myInst[p]] = "none"
+C5(p) == /\ UNCHANGED late
+         /\ pc[p] = "c5" /\ instLock[myInst[p]] = "none"
          /\ instLock' = [instLock EXCEPT ![myInst[p]] = p]
          /\ Goto(p, "c6") /\ Rec(p, "send.locked")
          /\ UNCHANGED <<first, gate, pending, seq, active, myInst, left, cur, wire>>
-C6(p) == /\ pc[p] = "c6"
+C6(p) == /\ UNCHANGED late
+         /\ pc[p] = "c6"
          /\ \E n \in 1..MaxChunks : left' = [left EXCEPT ![p] = n]
          /\ seq' = [seq EXCEPT ![myInst[p]] = NextSeq(@)]
          /\ cur' = [cur EXCEPT ![p] = NextSeq(seq[myInst[p]])]
          /\ first' = [first EXCEPT ![p] = seq[myInst[p]]]
          /\ Goto(p, "c8") /\ Rec(p, "chunk.write")
          /\ UNCHANGED <<gate, pending, instLock, active, myInst, wire>>
-C8(p) == /\ pc[p] = "c8" /\ left[p] > 0
+C8(p) == /\ UNCHANGED late
+         /\ pc[p] = "c8" /\ left[p] > 0
          /\ wire' = Append(wire, [inst |-> myInst[p], seq |-> cur[p], who |-> p, type |-> "MSG", last |-> left[p] = 1])
          /\ left' = [left EXCEPT ![p] = @ - 1]
          /\ IF left[p] = 1
@@ -124,6 +140,7 @@ C8(p) == /\ pc[p] = "c8" /\ left[p] > 0
 \* the sender's context had already ended (or the request id is a duplicate, or encoding fails):
 \* the message is numbered, nothing is written, the call returns the error; the counter goes back
 C6fail(p) ==
+         /\ UNCHANGED late
          /\ MayFailEarly /\ pc[p] = "c6"
          /\ seq' = IF Dev_SeqConsumedOnEarlyFailure THEN [seq EXCEPT ![myInst[p]] = NextSeq(@)] ELSE seq
          /\ instLock' = [instLock EXCEPT ![myInst[p]] = "none"]
@@ -134,6 +151,7 @@ C6fail(p) ==
 \* the context ends while the message is being written: chunk j goes out, the loop's ctx check
 \* stops before chunk j+1 is numbered; the numbers used so far stay used
 C8abort(p) ==
+         /\ UNCHANGED late
          /\ MayAbort /\ pc[p] = "c8" /\ left[p] > 1
          /\ wire' = Append(wire, [inst |-> myInst[p], seq |-> cur[p], who |-> p, type |-> "MSG", last |-> TRUE])
          /\ left' = [left EXCEPT ![p] = 0]
@@ -146,34 +164,42 @@ C8abort(p) ==
          /\ UNCHANGED <<gate, active, myInst, cur, first>>
 
 \* ---- renewer ----
-R1 == /\ pc[R] = "r1" /\ gate' = TRUE /\ Goto(R, "r2") /\ Rec(R, "renew.locked")
+R1 == /\ UNCHANGED late
+      /\ pc[R] = "r1" /\ gate' = TRUE /\ Goto(R, "r2") /\ Rec(R, "renew.locked")
       /\ UNCHANGED <<first, pending, instLock, seq, active, myInst, left, cur, wire>>
-R2 == /\ pc[R] = "r2" /\ pending = 0 /\ Goto(R, "r3") /\ Rec(R, "renew.waited")
+R2 == /\ UNCHANGED late
+      /\ pc[R] = "r2" /\ pending = 0 /\ Goto(R, "r3") /\ Rec(R, "renew.waited")
       /\ UNCHANGED <<first, gate, pending, instLock, seq, active, myInst, left, cur, wire>>
-R3 == /\ pc[R] = "r3" /\ instLock[1] = "none"
+R3 == /\ UNCHANGED late
+      /\ pc[R] = "r3" /\ instLock[1] = "none"
       /\ instLock' = [instLock EXCEPT ![1] = R] /\ Goto(R, "r5") /\ Rec(R, "renew.instlocked")
       /\ UNCHANGED <<first, gate, pending, seq, active, myInst, left, cur, wire>>
-R5 == /\ pc[R] = "r5" /\ seq' = [seq EXCEPT ![2] = seq[1]] /\ Goto(R, "r6") /\ Rec(R, "open.copied")
+R5 == /\ UNCHANGED late
+      /\ pc[R] = "r5" /\ seq' = [seq EXCEPT ![2] = seq[1]] /\ Goto(R, "r6") /\ Rec(R, "open.copied")
       /\ UNCHANGED <<first, gate, pending, instLock, active, myInst, left, cur, wire>>
-R6 == /\ pc[R] = "r6"                 \* the OPN request is numbered on the new instance
+R6 == /\ UNCHANGED late
+      /\ pc[R] = "r6"                 \* the OPN request is numbered on the new instance
       /\ seq' = [seq EXCEPT ![2] = NextSeq(@)]
       /\ cur' = [cur EXCEPT ![R] = NextSeq(seq[2])]
       /\ Goto(R, "r7") /\ Rec(R, "chunk.write")
       /\ UNCHANGED <<first, gate, pending, instLock, active, myInst, left, wire>>
-R7ok == /\ pc[R] = "r7"               \* OPN written, response handled: the new instance becomes active
+R7ok == /\ UNCHANGED late
+        /\ pc[R] = "r7"               \* OPN written, response handled: the new instance becomes active
         /\ wire' = Append(wire, [inst |-> 2, seq |-> cur[R], who |-> R, type |-> "OPN", last |-> TRUE])
         /\ active' = 2 /\ Goto(R, "r10") /\ Rec(R, "open.installed")
         /\ UNCHANGED <<first, gate, pending, instLock, seq, myInst, left, cur>>
-R7fail == /\ pc[R] = "r7" /\ RenewMayFail   \* OPN written, no response in time: the old instance stays active
+R7fail == /\ UNCHANGED late
+          /\ pc[R] = "r7" /\ RenewMayFail   \* OPN written, no response in time: the old instance stays active
           /\ wire' = Append(wire, [inst |-> 2, seq |-> cur[R], who |-> R, type |-> "OPN", last |-> TRUE])
           /\ seq' = IF Dev_FailedRenewSeq THEN seq ELSE [seq EXCEPT ![1] = seq[2]]
           /\ Goto(R, "r10") /\ Rec(R, "wait.timeout")
           /\ UNCHANGED <<first, gate, pending, instLock, active, myInst, left, cur>>
-R10 == /\ pc[R] = "r10" /\ instLock' = [instLock EXCEPT ![1] = "none"] /\ gate' = FALSE
+R10 == /\ UNCHANGED late
+       /\ pc[R] = "r10" /\ instLock' = [instLock EXCEPT ![1] = "none"] /\ gate' = FALSE
        /\ Goto(R, "done") /\ Rec(R, "done")
        /\ UNCHANGED <<first, pending, seq, active, myInst, left, cur, wire>>
 
-Next == \/ \E p \in Senders : C1(p) \/ C2(p) \/ C4(p) \/ C5(p) \/ C6(p) \/ C6fail(p) \/ C8(p) \/ C8abort(p)
+Next == \/ \E p \in Senders : C0(p) \/ C1(p) \/ C2(p) \/ C4(p) \/ C5(p) \/ C6(p) \/ C6fail(p) \/ C8(p) \/ C8abort(p)
         \/ R1 \/ R2 \/ R3 \/ R5 \/ R6 \/ R7ok \/ R7fail \/ R10
 
 Spec == Init /\ [][Next]_vars
@@ -188,8 +214,11 @@ InvNoMisuse   == ~(\E p \in Senders : pc[p] = "c4" /\ Dev_GateGap /\ pc[R] = "r2
 \* a chunk is numbered and written on the instance that is active, or the renewal is still in flight
 InvFreshInst  == \A p \in Senders : pc[p] \in {"c5", "c6", "c8"} => (myInst[p] = active \/ pc[R] \in {"r7", "r10"})
 
+\* a request issued during a renewal is sent with the token the renewal installed
+InvLateOnNew  == \A i \in 1..Len(wire) : (wire[i].who \in late /\ active = 2 /\ pc[R] = "done") => wire[i].inst = 2
+
 Terminal == \A p \in Procs : pc[p] = "done"
-Beh == [sched |-> hist, wire |-> wire, seq0 |-> Seq0,
+Beh == [sched |-> hist, wire |-> wire, seq0 |-> Seq0, late |-> late,
         stepok |-> InvSeqStep, contiguous |-> InvContiguous]
 InvEmit == (Gen /\ Terminal) => PrintT("BEH " \o ToJson(Beh))
 =============================================================================
